@@ -160,6 +160,22 @@ Theorem C10_name_only_key_refuted : exists f h x, answer_after name_only_key f h
 Proof. exact name_only_key_refuted. Qed.
 Print Assumptions C10_name_only_key_refuted.
 
+(* 8b'. the two-way memo of stacked_scopes._memoized_invert (computing inv x = y also records
+        y -> x): history-independent when inv is an involution on the memoised objects, and an
+        earlier call changes a later answer otherwise.  pyanalyze's invert() is an involution only
+        up to logical equivalence; the memo is per constraint object and constraint objects are not
+        shared between programs (Det/StateAudit.v), so the dependence stays inside one check, whose
+        call sequence is a function of the source. *)
+Theorem C10_two_way_memo_history_independent : forall inv, (forall z, inv (inv z) = z) ->
+  forall h1 h2 x, two_way_answer inv h1 x = two_way_answer inv h2 x.
+Proof. exact two_way_memo_history_independent. Qed.
+Print Assumptions C10_two_way_memo_history_independent.
+
+Theorem C10_two_way_memo_needs_involution : forall inv x,
+  inv (inv x) <> x -> inv x <> x -> two_way_answer inv [x] (inv x) <> two_way_answer inv [] (inv x).
+Proof. exact two_way_memo_needs_involution. Qed.
+Print Assumptions C10_two_way_memo_needs_involution.
+
 (* 8c. state that outlives one check, regenerated from the seven files: every module- or
        class-level mutable object that is stored through is audited, the only process-global
        cache is `_empty_constrained.resolution_cache`, whose key -- analysed field by field, not as
